@@ -173,7 +173,7 @@ func checkLRDriver(c *Ctx, p *Prog, rule, pkg, fnName string, frontend bool) {
 				return nil
 			},
 			AtStart: func(r *Run, fr *frame) {
-				tops, scans, lookups = 0, 0, 0
+				tops, lookups = 0, 0
 				r.ClearCell(recvName, ".nextToken")
 				r.ClearCell(recvName, ".pos")
 			},
@@ -242,9 +242,9 @@ func checkLRDriver(c *Ctx, p *Prog, rule, pkg, fnName string, frontend bool) {
 			want = append(want, fmt.Sprintf("push(%s,*token.Token(%s))", sym, tok))
 			want = append(want, "Scan")
 			if frontend {
-				want = append(want, "store "+recvName+".nextToken = &tok1", "store "+recvName+".pos = pos1")
+				want = append(want, "store "+recvName+".nextToken = &tok2", "store "+recvName+".pos = pos2")
 			} else {
-				want = append(want, "store "+recvName+".nextToken = &tok1")
+				want = append(want, "store "+recvName+".nextToken = &tok2")
 			}
 		case "reduce":
 			if frontend {
